@@ -537,6 +537,72 @@ var c16Follow = core.Mon(c16, "names-follow-the-map", func(w *core.W, c *FollowC
 	}
 })
 
+// MemberCallCase: `x.k(...)` reads key k of x like any other member access - also when k is spelled like a builtin - and
+// calls what it finds there; struct fields are read by their Go names, whatever tags they carry.
+type MemberCallCase struct {
+	Src  string `json:"src"`
+	Want string `json:"want"` // rendered expected value, or "error"
+}
+
+type taggedRow struct {
+	Code  string `json:"ID"`
+	ID    int
+	Name  string `json:"label"`
+	Label string `json:"Name"`
+	Len   int    `json:"len"`
+}
+
+var memberCallCases = []MemberCallCase{
+	{"rules.len('abc')", "1003"}, {"rules.upper('abc')", "\"up:abc\""}, {"rules.max(1, 2)", "\"mine\""}, {"rules!.len('ab')", "1002"}, {"wrap.rules.abs(5)", "\"abs:5\""},
+	{"empty.len('abc')", "error"}, {"none.len('abc')", "error"}, {"none!.upper('abc')", "error"}, {"empty!.len('abc')", "error"}, {"rules.missing('x')", "error"},
+	{"len('abc')", "3"}, {"rules.len('abc') + len('abc')", "1006"}, {"[rules.now(), rules.toDay()]", "[\"n\", \"t\"]"},
+	{"item.ID", "7"}, {"item.Code", "\"SKU-9\""}, {"item.Name", "\"n\""}, {"item.Label", "\"l\""}, {"item.Len", "4"}, {"item!.ID + 1", "8"}, {"typeof item.ID", "\"number\""}, {"this.item.ID", "7"}, {"wrap.item.ID", "7"},
+	{"[item.ID, item.Code]", "[7, \"SKU-9\"]"},
+}
+
+var c16MemberCall = core.Mon(c16, "member-calls-and-tagged-fields", func(w *core.W, c *MemberCallCase) {
+	rules := map[string]interface{}{
+		"len":   func(s string) (int, error) { return 1000 + len(s), nil },
+		"upper": func(s string) (string, error) { return "up:" + s, nil },
+		"max":   func(a, b interface{}) (string, error) { return "mine", nil },
+		"abs":   func(x interface{}) (string, error) { return "abs:" + fmt.Sprint(x), nil },
+		"now":   func() (string, error) { return "n", nil },
+		"toDay": func() (string, error) { return "t", nil },
+	}
+	item := taggedRow{Code: "SKU-9", ID: 7, Name: "n", Label: "l", Len: 4}
+	data := map[string]interface{}{"rules": rules, "empty": map[string]interface{}{}, "none": nil, "item": item, "wrap": map[string]interface{}{"rules": rules, "item": item}}
+	v, err, panicked, pv := resolveIn(data, c.Src)
+	w.Eval(1)
+	w.Count("member_call_cases")
+	w.Nontrivial("membercall:" + c.Src)
+	if panicked {
+		w.Violation("member-calls-and-tagged-fields", "C16/escaped-panic", c, c.Want, fmt.Sprint(pv), c.Src)
+		return
+	}
+	got := "error"
+	if err == nil {
+		got = renderPlain(v)
+	}
+	if got != c.Want {
+		w.Violation("member-calls-and-tagged-fields", "C16/member-read-by-name", c, c.Want, got+" "+fmt.Sprint(err), c.Src+": a member is read from the object it is a member of, under its own (Go) name")
+	}
+})
+
+// renderPlain renders numbers in plain digits, strings quoted, arrays in brackets.
+func renderPlain(v interface{}) string {
+	switch x := v.(type) {
+	case string:
+		return fmt.Sprintf("%q", x)
+	case []interface{}:
+		var p []string
+		for _, e := range x {
+			p = append(p, renderPlain(e))
+		}
+		return "[" + strings.Join(p, ", ") + "]"
+	}
+	return plainNums(v)
+}
+
 func init() { c16.Run = runC16 }
 
 func runC16(w *core.W) {
@@ -648,6 +714,11 @@ func runC16(w *core.W) {
 		}
 	}
 	_ = strings.Join
+	for i := range memberCallCases {
+		if w.Mine(i) {
+			c16MemberCall(w, &memberCallCases[i])
+		}
+	}
 	fi := 0
 	for _, name := range []string{"$x", "a", "$fresh"} {
 		for _, first := range []string{"%n", "%n = 7", "%n = a + 1, %n", "[%n, this.%n]", "$y = %n", "%n = %n", "1"} {
